@@ -266,8 +266,14 @@ def check_real(recipe) -> list[Fail]:
     path = os.path.join(d, "lib.ukv")
     try:
         cc.make_handle(path, False, -1)  # create the file
+        # the same library reached through different spellings of its path (plain, via "sub/..", via a symlinked directory)
+        os.makedirs(os.path.join(d, "sub"), exist_ok=True)
+        dlink = d.rstrip("/") + "-ln"
+        if not os.path.islink(dlink):
+            os.symlink(d, dlink)
+        spell = [path, os.path.join(d, "sub", "..", "lib.ukv"), os.path.join(dlink, "lib.ukv")]
         procs = [
-            subprocess.Popen([sys.executable, "-m", "vf.c04_proc", path, str(i), str(nproc), str(nsess), str(seed), d],
+            subprocess.Popen([sys.executable, "-m", "vf.c04_proc", spell[i % 3] if recipe.get("aliases", True) else path, str(i), str(nproc), str(nsess), str(seed), d],
                              stdout=subprocess.DEVNULL, stderr=subprocess.PIPE, env=dict(os.environ))
             for i in range(nproc)
         ]
@@ -359,6 +365,10 @@ def check_real(recipe) -> list[Fail]:
                                       **{f"kind={k}": sum(1 for e in ents if e['kind'] == k) for k in {e['kind'] for e in ents}}})
     finally:
         shutil.rmtree(d, ignore_errors=True)
+        try:
+            os.unlink(d.rstrip("/") + "-ln")
+        except OSError:
+            pass
     seen = set()
     out = []
     for f_ in fails:
